@@ -37,7 +37,7 @@ def gen_case(rng, tier, k):
     bnet = common.g_mixed(rng, nmax=nmax, p_core=0.3)
     st = rng.choice(["bfs", "dfs", "build", "bfs", "scc", "block", "min", "aseeds"])
     if st in ("scc", "block") and rng.random() < 0.6:
-        bnet = common.g_modulated(rng, extra=False) if tier == "quick" else common.g_modulated(rng)
+        bnet = common.g_modulated(rng, focus=rng.random() < 0.5)
     flip = rng.randrange(64)
     if bnet.startswith("i0, i0") and rng.random() < 0.5:
         flip = 0        # encode the *input* by its negation (variable names sort i0 first)
